@@ -49,8 +49,10 @@ type scope struct {
 	// State
 	disposed int32 // atomic
 
-	// done is closed when Close has completed
-	done chan struct{}
+	// done is closed when Close has completed; closeErr is its result (set before
+	// done is closed, read only after it)
+	done     chan struct{}
+	closeErr error
 }
 
 // newUninitializedScope creates a scope without running the scope initialization functions.
@@ -314,14 +316,20 @@ func (s *scope) Close() error {
 	s.childrenMu.Unlock()
 
 	for _, child := range children {
-		if err := child.Close(); err != nil {
-			errs = append(errs, fmt.Errorf("failed to close child scope: %w", err))
-		}
+		err := child.Close()
 
 		// The child may be in the middle of being closed by someone else (its
-		// context watcher): its disposal must be complete before ours starts
+		// context watcher): its disposal must be complete before ours starts,
+		// and what failed there failed in our subtree
 		verifGate("C_waitchild", s, child)
 		<-child.done
+		if err == nil {
+			err = child.closeErr
+		}
+
+		if err != nil {
+			errs = append(errs, fmt.Errorf("failed to close child scope: %w", err))
+		}
 	}
 
 	// Dispose all disposable scoped instances in reverse order
@@ -360,16 +368,16 @@ func (s *scope) Close() error {
 	s.instances = nil
 	s.instancesMu.Unlock()
 
-	close(s.done)
-	verifEvent("C_ret", s)
 	if len(errs) > 0 {
-		return &DisposalError{
+		s.closeErr = &DisposalError{
 			Context: "scope",
 			Errors:  errs,
 		}
 	}
 
-	return nil
+	close(s.done)
+	verifEvent("C_ret", s)
+	return s.closeErr
 }
 
 // getInstance retrieves a cached instance from this scope in a thread-safe manner.
